@@ -50,7 +50,7 @@ Print Assumptions C06_decimal_text_roundtrip.
 
 (* the domain is not empty at its corners *)
 Example C06_example :
-  in_domain_for SetMeta (VDateTime (mkdt 9999 12 31 23 59 59 999999 (Some (-50400)%Z))) = true /\
+  in_domain_for SetMeta (VDateTime (mkdt 9999 12 31 23 59 59 999999 (Some (-50400000000)%Z))) = true /\
   in_domain_for SetET (VDec (mkdec true 110 (-2))) = true /\ in_domain_for SetCellValue (VFloat [49;101;43;51;48;48]%N) = true /\
   in_domain_for SetET (VInt (-1267650600228229401496703205376)%Z) = true /\ in_domain_for SetMeta (VStr [116;114;117;101]%N) = true.
 Proof. repeat split; reflexivity. Qed.
